@@ -663,7 +663,7 @@ def _on_line(code, line):
             raise SimKilled()
         return None
     cur = k.current
-    if cur.is_root or k.preempt == "sync":
+    if cur.is_root:
         return None
     k.yield_point((id(code) << 16) + line)
     return None
